@@ -334,7 +334,7 @@ class Hand:
             sym = r.choice(["L", "mL", "µL", "nL", "pL", "fL"])
             return "%r %s" % (float(v / float(si.VOLUME[sym])), sym)
         own = gen.mild_sys(r)
-        return "%r %s" % (bare(v, own, dim), si.unit_string(own, dim, style=r.choice([0, 1])))
+        return "%r %s" % (bare(v, own, dim), si.unit_string(own, dim, style=r.choice([0, 1, 2, 3])))
 
     def perenv(self, eff, wr, zero):
         """eff: {env: value}; wr(value) writes one; None means 'leave the key out'"""
@@ -1411,6 +1411,45 @@ def run_large_sidefiles(case):
             "sample": {"seed": sd, "idx": idx, "cells": n, "species": S, "values_per_line": per_line}}
 
 
+def run_resave(case):
+    """the same path written twice: first a large object, then a small one.  What is loaded afterwards is the small one (nothing
+    of the longer first file survives), exactly as when the small one is saved to a fresh path."""
+    use_repo()
+    import strengths as st
+    from vf.common import SCRATCH
+    sd, idx = case["seed"], case["idx"]
+    r = gen.rng_for(sd, "C12resave", idx)
+    os.makedirs(SCRATCH, exist_ok=True)
+    root = tempfile.mkdtemp(prefix="c12resave-", dir=SCRATCH)
+    bad, counts = [], {}
+    try:
+        big_net = st.RDNetwork([st.Species("S%d" % i, D=1.0 + i, density=i) for i in range(12)], [st.Reaction("S0 -> S1", kf=1.0, label="a_long_label_" * 5)])
+        small_net = st.RDNetwork([st.Species("A")], [])
+        big_grid = st.RDGridSpace(w=6, h=5, d=2, cell_env=[0] * 60, cell_vol="3.5 µm3", boundary_conditions={"x": "periodical", "y": "periodical", "z": "periodical"})
+        small_grid = st.RDGridSpace(w=2, h=1, d=1)
+        big_graph = st.RDGraphSpace([st.RDGraphSpaceNode(volume=1.0 + i) for i in range(9)], [st.RDGraphSpaceEdge(i, i + 1, surface=2.0, distance=3.0) for i in range(8)])
+        kinds = {
+            "network": (st.save_rdnetwork, st.load_rdnetwork, st.rdnetwork_to_dict, big_net, small_net),
+            "space": (st.save_rdspace, st.load_rdspace, st.rdspace_to_dict, r.choice([big_grid, big_graph]), small_grid),
+            "system": (st.save_rdsystem, st.load_rdsystem, st.rdsystem_to_dict, st.RDSystem(big_net, big_grid), st.RDSystem(small_net, small_grid)),
+        }
+        for name, (save, load, to_dict, big, small) in kinds.items():
+            counts["resave_checks"] = counts.get("resave_checks", 0) + 1
+            p1, p2 = os.path.join(root, name + ".json"), os.path.join(root, name + "_fresh.json")
+            try:
+                save(big, p1)
+                save(small, p1)
+                save(small, p2)
+                got, want = to_dict(load(p1)), to_dict(load(p2))
+                if json.dumps(got, sort_keys=True, default=str) != json.dumps(want, sort_keys=True, default=str):
+                    bad.append({"what": "a file written twice (large object, then small one) does not load as the small one", "kind": name, "case": case})
+            except Exception as e:
+                bad.append({"what": "a file written twice (large object, then small one) cannot be loaded", "kind": name, "error": "%s: %s" % (type(e).__name__, e), "case": case})
+    finally:
+        shutil.rmtree(root, ignore_errors=True)
+    return {"bad": bad[:3], "counts": counts, "key": chash(["resave", sd, idx]), "nontrivial": True, "sample": {"seed": sd, "idx": idx}}
+
+
 def main():
     if len(sys.argv) > 2 and sys.argv[1] == "--replay":
         return replay(sys.argv[2])
@@ -1498,6 +1537,8 @@ def main():
     from vf.sandbox import run_extra as _rx9
     _rx9(run, "vf.checks.c12:run_large_sidefiles", [{"seed": seed(), "idx": _i} for _i in range(40 if tier() == "thorough" else 6)], cpu_budget=90)
     run.require("large_sidefile_entries")
+    _rx9(run, "vf.checks.c12:run_resave", [{"seed": seed(), "idx": _i} for _i in range(40 if tier() == "thorough" else 8)], cpu_budget=60)
+    run.require("resave_checks")
     # a key left out of a dictionary means the constructor's documented default, in the object's own units (vf/history.py)
     from vf.sandbox import run_extra as _rxd
     from vf.common import seed as _sdd, tier as _trd
